@@ -291,8 +291,57 @@ def gen_real_case(rng, cid, max_atoms, twice_p=0.25, kinds=None):
             "structure": st, "params": params, "meta": meta, "time_limit": 240}
 
 
+def gen_flat_outside_case(rng, cid):
+    """the cell-stretching front end of SBC.get_clusters: every atom has exactly the SAME coordinate along a non-periodic
+    direction and lies outside the cell along it (sheet above/below its box, planar flake or molecule without a usable cell);
+    no periodic cell vector is zero, so the call must return normally"""
+    k = rng.randrange(3)
+    others = [i for i in range(3) if i != k]
+    a = rng.choice([1.42, 2.46, 2.55, 3.0])
+    kind = rng.choice(["square-sheet", "hex-sheet", "flake", "ring"])
+    n1, n2 = rng.randint(1, 3), rng.randint(1, 3)
+    pts = []
+    if kind == "square-sheet" or kind == "flake":
+        pts = [(i * a, j * a) for i in range(n1 + 1) for j in range(n2 + 1)]
+        L1, L2 = (n1 + 1) * a, (n2 + 1) * a
+    elif kind == "hex-sheet":
+        import math as _m
+        for i in range(n1 + 1):
+            for j in range(n2 + 1):
+                pts += [(i * a * _m.sqrt(3), j * a * 3 + 0.0), (i * a * _m.sqrt(3) + a * _m.sqrt(3) / 2, j * a * 3 + a * 1.5),
+                        (i * a * _m.sqrt(3) + a * _m.sqrt(3) / 2, j * a * 3 + a * 0.5), (i * a * _m.sqrt(3), j * a * 3 + a * 2.0)]
+        L1, L2 = (n1 + 1) * a * _m.sqrt(3), (n2 + 1) * a * 3
+    else:
+        import math as _m
+        m = rng.choice([5, 6])
+        pts = [(5 + a * _m.cos(2 * _m.pi * t / m), 5 + a * _m.sin(2 * _m.pi * t / m)) for t in range(m)]
+        L1 = L2 = 10.0
+    h = rng.choice([8.0, 10.0, 12.0])
+    level = rng.choice([-2.0, -0.5, h + 1.0, h + 3.0, 5.0 * h])
+    pos = []
+    for (u, v) in pts:
+        p = [0.0, 0.0, 0.0]
+        p[others[0]], p[others[1]], p[k] = u, v, level
+        pos.append(p)
+    cell = [[0.0] * 3 for _ in range(3)]
+    cell[others[0]][others[0]], cell[others[1]][others[1]], cell[k][k] = L1, L2, h
+    pbc = [False, False, False]
+    if kind in ("square-sheet", "hex-sheet"):
+        pbc[others[0]] = pbc[others[1]] = True
+    elif rng.random() < 0.4:
+        cell = [[0.0] * 3 for _ in range(3)]      # no cell at all
+    num = [rng.choice([6, 6, 29, 5, 7])] * len(pos) if rng.random() < 0.6 else [rng.choice([6, 5, 7]) for _ in pos]
+    return {"id": cid, "mode": "real", "matrix": False, "twice": False, "frontend": True,
+            "structure": {"numbers": num, "positions": pos, "cell": cell, "pbc": pbc},
+            "params": {"seed": rng.randrange(100)},
+            "meta": {"kind": "frontend", "zero": [not any(cell[i]) for i in range(3)], "pbc": pbc, "shape": "flat-outside:" + kind},
+            "time_limit": 60}
+
+
 def gen_frontend_case(rng, cid):
     """cells with zero vectors under every pbc pattern: the ValueError clause"""
+    if rng.random() < 0.25:
+        return gen_flat_outside_case(rng, cid)
     zero = [rng.random() < 0.45 for _ in range(3)]
     pbc = [rng.random() < 0.5 for _ in range(3)]
     n = rng.randint(1, 6)
